@@ -177,6 +177,10 @@ func (c CertificateContent) HashSum() []byte {
 	//hash json with sha1
 	alg := sha1.New()
 	alg.Write(b)
+	//the json above does not tell extension types apart
+	for _, ext := range c.Extensions {
+		alg.Write([]byte(ext.Oid().String()))
+	}
 	return alg.Sum(nil)
 }
 
